@@ -16,6 +16,7 @@ Decided statically (DESIGN.md section 5, C01), for the four tasking configuratio
            nothing invoked for n <= 0, and no intermediate can leave its computation type
   R-C01-5  parallel_foreach: count == distance(begin,end), element i == begin[i] (address arithmetic on &*begin only
            for iterators that are known to be contiguous), container overload forwards begin/end
+  R-C01-6e pipe slot protocol order (claim by CAS / CAN_WRITE test -> buffer access -> flag hand-over -> barrier -> index)
   R-C01-6  enkiTS accounting: running-count token discipline in SplitAndAddTask / TryRunTask (increment before
            publication, exactly one decrement after each ExecuteRange through the same task), SplitTask and the
            inline re-cut keep [executed) + [remaining) an exact cover of the owned partition, plain stores to
@@ -2109,6 +2110,220 @@ def check_count_stores(ctx, tu):
 
 
 # =====================================================================================================
+#  R-C01-6e  slot protocol of the lock-less pipe (order only; sufficiency under the memory model is not decided)
+# =====================================================================================================
+PIPE = 'enki::LockLessMultiReadPipe'
+
+
+def member_index(tu, e, member):
+    """index access path if e is  this->member[IDX]  with IDX a local variable, else None"""
+    n = leaf(tu, e)
+    if n is None or n.get('kind') != 'ArraySubscriptExpr':
+        return None
+    ks = tu.kids(n)
+    b = leaf(tu, ks[0])
+    if b is None or b.get('kind') != 'MemberExpr' or b.get('name') != member:
+        return None
+    return access_path(tu, ks[1]) or ('?',)
+
+
+def const_name(tu, e):
+    n = leaf(tu, e)
+    if n is not None and n.get('kind') == 'DeclRefExpr':
+        return n.get('referencedDecl', {}).get('name')
+    if n is not None and n.get('kind') == 'MemberExpr':
+        return n.get('name')
+    return None
+
+
+def check_pipe_protocol(ctx, tu):
+    R = 'R-C01-6e'
+    ctx.describe(R, 'pipe slot protocol: a reader touches m_Buffer[i] only after its CAS(m_Flags[i]: CAN_READ -> INVALID) succeeded and '
+                    'then stores CAN_WRITE; the writer touches m_Buffer[i] only after observing CAN_WRITE, then stores CAN_READ, then a '
+                    'compiler/memory barrier, then publishes the write index')
+    n_inst = 0
+    for f in tu.functions.values():
+        if f['dep'] or f.get('rec') != PIPE or tu.cfg(f) is None:
+            continue
+        name = f['q'].split('::')[-1]
+        if name not in ('WriterTryWriteFront', 'WriterTryReadFront', 'ReaderTryReadBack'):
+            continue
+        n_inst += 1
+        producer = name == 'WriterTryWriteFront'
+        g = tu.cfg(f)
+        inst = '[INTERNAL] LockLessMultiReadPipe::%s' % name
+        loc = tu.fn_loc(f)
+        file = tu.fn_file(f)
+        key = lambda d: '%s|%s|LockLessMultiReadPipe::%s|%s' % (R, file, name, d)
+        probs = set()
+        und = set()
+        cas_calls = {}
+        for b, i, n in g.stmts():
+            if n.get('kind') == 'CallExpr' and tu.sd(n).get('q') == 'enki::AtomicCompareAndSwap':
+                args = tu.kids(n)[1:]
+                a0 = leaf(tu, args[0]) if args else None
+                idx = member_index(tu, tu.kids(a0)[0], 'm_Flags') if a0 is not None and a0.get('kind') == 'UnaryOperator' and a0.get('opcode') == '&' else None
+                if idx is None or len(args) != 3:
+                    continue
+                if (const_name(tu, args[1]), const_name(tu, args[2])) != ('FLAG_INVALID', 'FLAG_CAN_READ'):
+                    probs.add(('cas-values', 'the claiming compare-and-swap is not (swapTo = FLAG_INVALID, compareWith = FLAG_CAN_READ)'))
+                par = tu.par(n)
+                while par is not None and par.get('kind') in ('ImplicitCastExpr', 'ParenExpr'):
+                    par = tu.par(par)
+                var = None
+                if par is not None and par.get('kind') == 'VarDecl':
+                    var = par['id']
+                elif par is not None and par.get('kind') == 'BinaryOperator' and par.get('opcode') == '=':
+                    ap = access_path(tu, tu.kids(par)[0])
+                    var = ap[1] if ap else None
+                cas_calls[n['id']] = (idx, var)
+
+        def cond_info(cond):
+            """('claim', truth-on-success, idx) for a test of a CAS result / of m_Flags[i] against its expected constant"""
+            n = leaf(tu, cond)
+            neg = False
+            while n is not None and n.get('kind') == 'UnaryOperator' and n.get('opcode') == '!':
+                neg = not neg
+                n = leaf(tu, tu.kids(n)[0])
+            if n is None or n.get('kind') != 'BinaryOperator' or n.get('opcode') not in ('==', '!='):
+                return None
+            ks = tu.kids(n)
+            for a, b in ((ks[0], ks[1]), (ks[1], ks[0])):
+                cn = const_name(tu, b)
+                la = leaf(tu, a)
+                if la is None:
+                    continue
+                eq = (n['opcode'] == '==') != neg
+                if cn == 'FLAG_CAN_READ':
+                    if la.get('id') in cas_calls:
+                        return ('cas', eq, cas_calls[la['id']][0], None)
+                    ap = access_path(tu, a)
+                    if ap is not None and len(ap) == 3:
+                        return ('casvar', eq, None, ap[1])
+                if cn == 'FLAG_CAN_WRITE' and producer:
+                    idx = member_index(tu, a, 'm_Flags')
+                    if idx is not None:
+                        return ('flag', eq, idx, None)
+            return None
+
+        # state: (owned idx | None, pending (var, idx) | None, phase)
+        def transfer(blk, i, e, st):
+            if e[0] != 'S':
+                return [st]
+            n = tu.node(e[1])
+            if n is None:
+                return [st]
+            own, pend, ph = st
+            k = n.get('kind')
+            if n['id'] in cas_calls:
+                idx, var = cas_calls[n['id']]
+                return [(own, (var, idx), ph)]
+            if k == 'GCCAsmStmt' or (k == 'CallExpr' and tu.sd(n).get('q', '').split('::')[-1] in
+                                     ('atomic_thread_fence', '__sync_synchronize', '_ReadWriteBarrier')):
+                return [(own, pend, 3 if ph == 2 else ph)]
+            if k == 'ArraySubscriptExpr':
+                idx = member_index(tu, n, 'm_Buffer')
+                if idx is not None:
+                    if own != idx:
+                        probs.add(('buffer-unclaimed', 'm_Buffer[%s] is accessed on a path where the slot has not been claimed (%s): two threads '
+                                   'can use the same slot, a partition is run twice or lost'
+                                   % (path_str(idx), 'no successful CAS on m_Flags[%s]' % path_str(idx) if not producer else
+                                      'FLAG_CAN_WRITE was not observed')))
+                    elif ph >= 2:
+                        probs.add(('buffer-after-release', 'm_Buffer[%s] is accessed after the slot flag was handed on' % path_str(idx)))
+                    return [(own, pend, max(ph, 1))]
+                return [st]
+            tgt = None
+            if k == 'BinaryOperator' and n.get('opcode') == '=':
+                tgt = tu.kids(n)[0]
+            elif k == 'UnaryOperator' and n.get('opcode') in ('++', '--'):
+                tgt = tu.kids(n)[0]
+            elif k == 'CompoundAssignOperator':
+                tgt = tu.kids(n)[0]
+            if tgt is not None:
+                fidx = member_index(tu, tgt, 'm_Flags')
+                if fidx is not None:
+                    val = const_name(tu, tu.kids(n)[1]) if k == 'BinaryOperator' else None
+                    want = 'FLAG_CAN_READ' if producer else 'FLAG_CAN_WRITE'
+                    if val != want:
+                        probs.add(('flag-value', 'm_Flags[%s] is set to %s; the %s must hand the slot on with %s'
+                                   % (path_str(fidx), val, 'writer' if producer else 'reader', want)))
+                    if own != fidx:
+                        probs.add(('flag-unclaimed', 'm_Flags[%s] is stored on a path where the slot is not owned' % path_str(fidx)))
+                    elif ph < 1:
+                        probs.add(('flag-before-data', 'the slot flag is handed on (%s) before m_Buffer[%s] has been %s: the next owner can %s'
+                                   % (want, path_str(fidx), 'written' if producer else 'read',
+                                      'read a stale partition' if producer else 'overwrite the partition before it is read')))
+                    return [(own, pend, max(ph, 2))]
+                ap = access_path(tu, tgt)
+                if ap is not None and ap == ('this', 'm_WriteIndex'):
+                    if ph == 2:
+                        probs.add(('index-before-barrier', 'm_WriteIndex is updated after the flag store without a barrier in between: the index can '
+                                   'become visible before the slot content'))
+                    elif ph < 2:
+                        probs.add(('index-before-flag', 'm_WriteIndex is updated before the slot was handed on'))
+                    return [(own, pend, 4 if ph >= 3 else ph)]
+                if ap is not None and own is not None and ap == own:
+                    return [(None, pend, ph)]     # the index variable changes: the claim no longer refers to it
+                if ap is not None and pend is not None and len(ap) == 3 and ap[1] == pend[0]:
+                    rhs = leaf(tu, tu.kids(n)[1]) if k == 'BinaryOperator' else None
+                    if rhs is None or rhs.get('id') not in cas_calls:
+                        return [(own, None, ph)]
+            if k == 'ReturnStmt' and tu.kids(n):
+                v = const_value(tu, tu.kids(n)[0])
+                lv = leaf(tu, tu.kids(n)[0])
+                if lv is not None and lv.get('kind') == 'CXXBoolLiteralExpr':
+                    v = 1 if lv.get('value') else 0
+                if v is None:
+                    und.add('return value `%s` is not a Boolean constant' % tu.show(tu.kids(n)[0]))
+                elif v:
+                    need = 4 if producer else 2
+                    if name == 'WriterTryReadFront':
+                        need = 4
+                    if ph < need:
+                        probs.add(('success-incomplete', 'the function reports success on a path that did not complete the slot hand-over '
+                                   '(data access, flag store%s)' % (', barrier, write index' if need == 4 else '')))
+                else:
+                    if ph != 0:
+                        probs.add(('failure-after-access', 'the function reports failure after it has touched a slot'))
+            return [st]
+
+        def refine(blk, si, st):
+            if blk.cond is None or len(blk.succ) != 2:
+                return [st]
+            ci = cond_info(tu.node(blk.cond))
+            if ci is None:
+                return [st]
+            kind, eq, idx, var = ci
+            own, pend, ph = st
+            success = (si == 0) == eq
+            if kind == 'casvar':
+                if pend is None or pend[0] != var:
+                    return [st]
+                idx = pend[1]
+            if kind == 'cas' and (pend is None or pend[1] != idx):
+                return [st]
+            if success:
+                return [(idx, None, ph)]
+            return [(own, None, ph)]
+
+        try:
+            g.explore([(None, None, 0)], transfer, refine)
+        except RuntimeError as e:
+            und.add(str(e))
+        if not producer and not cas_calls:
+            probs.add(('no-cas', 'the reader never claims a slot with a compare-and-swap'))
+        for u in sorted(und):
+            ctx.undecided(R, inst, u, loc)
+        for k, t in sorted(probs):
+            ctx.violation(R, inst, t, loc, key=key(k))
+        if not probs and not und:
+            ctx.ok(R, inst, 'claim -> buffer access -> flag hand-over%s on every successful path; nothing touched on failing paths'
+                   % (' -> barrier -> write index' if name != 'ReaderTryReadBack' else ''), loc)
+    ctx.floor(R, n_inst, 3, 'WriterTryWriteFront, WriterTryReadFront, ReaderTryReadBack of the task pipe instantiation')
+
+
+# =====================================================================================================
 #  R-C01-4 block partition
 # =====================================================================================================
 def local_defs(tu, fns):
@@ -2794,7 +3009,7 @@ def first_error(stderr):
     return '%s:%s: %s' % (m.group(1), m.group(2), m.group(3)) if m else stderr.strip().splitlines()[0] if stderr.strip() else '?'
 
 
-def run_witnesses(ctx, configs):
+def run_witnesses(ctx, configs, compiler='clang++'):
     W1, W2, W3 = 'W-C01-1', 'W-C01-2', 'W-C01-3'
     ctx.describe(W1, 'parallel_for compiles for unsigned char, short, int, unsigned, long, long long, unsigned long long, size_t '
                      'under every tasking backend')
@@ -2812,9 +3027,9 @@ def run_witnesses(ctx, configs):
     def one(j):
         kind, c, x = j
         if kind == 'reject':
-            return j, ctx.front.compile_check('witness/c01_reject.cpp', config=c, extra=('-DC01_CASE=%d' % x,))
+            return j, ctx.front.compile_check('witness/c01_reject.cpp', config=c, extra=('-DC01_CASE=%d' % x,), compiler=compiler)
         unit = 'witness/c01_accept.cpp' if kind == 'accept' else 'witness/c01_blocks.cpp'
-        return j, ctx.front.compile_check(unit, config=c, extra=(('-DC01_TYPE=%s' % x,) if x else ()))
+        return j, ctx.front.compile_check(unit, config=c, extra=(('-DC01_TYPE=%s' % x,) if x else ()), compiler=compiler)
     with ThreadPoolExecutor(max_workers=16) as ex:
         res = list(ex.map(one, jobs))
     # failing all-types units are re-run per type to name the type
@@ -2826,6 +3041,7 @@ def run_witnesses(ctx, configs):
         res2 = dict(ex.map(one, second)) if second else {}
     small_blocks_ok = {}
     n1 = n2 = n3 = 0
+    tag = '' if compiler == 'clang++' else '/' + compiler
     for (kind, c, x), (rc, err) in res:
         if kind == 'accept':
             rule, fnname, what = W1, 'parallel_for', 'parallel_for'
@@ -2833,7 +3049,7 @@ def run_witnesses(ctx, configs):
             rule, fnname, what = W3, 'parallel_in_blocks_of', 'parallel_in_blocks_of<16>'
         if kind in ('accept', 'blocks'):
             for t in INDEX_TYPES:
-                inst = '[%s] %s<%s>' % (c, what, t)
+                inst = '[%s%s] %s<%s>' % (c, tag, what, t)
                 if kind == 'accept':
                     n1 += 1
                 else:
@@ -2858,7 +3074,7 @@ def run_witnesses(ctx, configs):
                 continue
             n2 += 1
             desc = dict(REJECT_CASES)[x]
-            inst = '[%s] reject case %d (%s)' % (c, x, desc)
+            inst = '[%s%s] reject case %d (%s)' % (c, tag, x, desc)
             sa = static_assert_errors(ctx, err)
             if rc == 0:
                 ctx.violation(W2, inst, 'the call compiles: %s is accepted although the property lists it as rejected' % desc, F_PFOR,
@@ -2952,9 +3168,13 @@ def run(ctx):
     check_split_and_add(ctx, tu_enki, split_fn if split_fn is not None else find_split_task(tu_enki))
     check_try_run_task(ctx, tu_enki, split_fn if split_fn is not None else find_split_task(tu_enki))
     n = check_count_stores(ctx, tu_enki)
+    check_pipe_protocol(ctx, tu_enki)
     ctx.floor('R-C01-6(d)', n, 1, 'the reset of m_RunningCount in AddTaskSetToPipe')
+    n6 = sum(1 for o in ctx.obl if o['rule'] == 'R-C01-6')
+    ctx.floor('R-C01-6', n6, 4, 'SplitTask, SplitAndAddTask, TryRunTask, the count reset')
 
     if ctx.tier == 'thorough':
+        run_witnesses(ctx, configs, compiler='g++')
         # the same dispatch code under gnu++17 (guaranteed elision changes the AST shape of temporaries)
         tus2 = ctx.front.parse_many([dict(unit=DRIVER, config=c, std='gnu++17',
                                           extra=(('-DRKVERIF_C01_SMALL_BLOCKS',) if small_ok.get(c) else ())) for c in configs])
